@@ -50,7 +50,7 @@ From SDJWT Require Import Base.Json Base.JsonFacts Params Codec.Base64 Codec.Utf
   Codec.DisclosureText Model.Common Model.Issuer Model.Holder Model.Jwt Model.Verifier
   Spec.Path Spec.View Proofs.Build.
 From SDJWT Require Proofs.IssuerBuild Proofs.UnpackView Proofs.WalkSel Proofs.DisclosureCodec
-  Proofs.JsonRoundtrip Proofs.VerifierFacts Proofs.HolderFacts.
+  Proofs.JsonRoundtrip Proofs.VerifierFacts Proofs.HolderFacts Proofs.JsonLaxFacts.
 From Coq Require Import Permutation Lia PeanoNat.
 
 (* ================================================================== *)
@@ -892,8 +892,11 @@ Lemma parse_json_form_text : forall (hb plb sg : str) (ds : list str) kbv kbo pl
   Ok {| p_fmt := JSONFmt; p_jwt := jwt3 hb plb sg; p_payload := pl; p_disclosures := ds;
         p_kb := kbo; p_sign_alg := seg_alg hb; p_json := Some (hb, plb, sg) |}.
 Proof.
-  intros hb plb sg ds kbv kbo pl K D1 D2 Ep. unfold parse_json_form.
-  rewrite sdjwt_json_parse by (destruct K as [[-> _]|(kb & -> & _)]; [left; reflexivity | right; eexists; reflexivity]).
+  intros hb plb sg ds kbv kbo pl K D1 D2 Ep.
+  assert (K' : kbv = JNull \/ exists kb, kbv = JStr kb)
+    by (destruct K as [[-> _]|(kb & -> & _)]; [left; reflexivity | right; eexists; reflexivity]).
+  rewrite (JsonLaxFacts.parse_json_form_of_raw _ _ (sdjwt_json_parse hb plb sg ds kbv K')).
+  unfold parse_json_form_strict. rewrite sdjwt_json_parse by exact K'.
   unfold sdjwt_json. cbv beta iota zeta.
   set (raw := [(lit "protected", JStr hb); (lit "payload", JStr plb); (lit "signature", JStr sg);
                (lit "disclosures", JArr (json_strs ds)); (lit "kb_jwt", kbv)]).
